@@ -57,8 +57,8 @@ mut('c11-mlem-stale-sens', 'C11', 'odl/solvers/iterative/statistical.py',
     "            x *= tmp_dom\n            if _ == 0 and niter > 6:\n                x *= 1.001\n")
 mut('c11-proxgrad-unint-tmp', 'C11',
     'odl/solvers/nonsmooth/proximal_gradient_solvers.py',
-    "        tmp.lincomb(1, x, -gamma, g_grad(x))\n\n        # Update x^{k+1}",
-    "        tmp.lincomb(1, x, -gamma, g_grad(x)) if k else tmp.lincomb(1e-30, tmp, 1, x - gamma * g_grad(x))\n\n        # Update x^{k+1}")
+    "        tmp.lincomb(1, x, -gamma, g_grad(x))\n\n        # Update x\n",
+    "        tmp.lincomb(1, x, -gamma, g_grad(x)) if k else tmp.lincomb(1e-30, tmp, 1, x - gamma * g_grad(x))\n\n        # Update x\n")
 
 
 # ---- C12 -----------------------------------------------------------------
@@ -198,8 +198,8 @@ mut('c18-inplace-plan-revert', 'C18',
     "        plan_arr_out = plan_arr_in if array_out is array_in else array_out\n",
     "        plan_arr_out = array_out\n")
 mut('c18-inverse-norm-dropped', 'C18', 'odl/trafos/fourier.py',
-    "        if self.sign == '-':\n            out /= np.prod(np.take(self.domain.shape, self.axes))\n\n        return out",
-    "        if self.sign == '-' and out.ndim != 3:\n            out /= np.prod(np.take(self.domain.shape, self.axes))\n\n        return out")
+    "        if self.sign == '-':\n            out /= np.prod(np.take(self.domain.shape, self.axes))\n\n        if out_real is not None:",
+    "        if self.sign == '-' and out.ndim != 3:\n            out /= np.prod(np.take(self.domain.shape, self.axes))\n\n        if out_real is not None:")
 mut('c18-irfftn-shape-revert', 'C18', 'odl/trafos/fourier.py',
     "            return np.fft.irfftn(x, s=np.take(self.range.shape, self.axes),\n                                 axes=self.axes)",
     "            return np.fft.irfftn(x, axes=self.axes)")
